@@ -46,6 +46,11 @@ type MTProto struct {
 	// общий мьютекс
 	mutex sync.Mutex
 
+	// connMutex serialises CreateConnection, Disconnect and Reconnect: the connection is replaced by the caller's
+	// goroutine (PHONE_MIGRATE_X, the application) and by the reading routine (the server hung up), possibly at
+	// the same moment. It guards stopRoutines and the assignment of transport
+	connMutex sync.Mutex
+
 	// каналы, которые ожидают ответа rpc. ответ записывается в канал и удаляется
 	responseChannels *utils.SyncIntObjectChan
 	expectedTypes    *utils.SyncIntReflectTypes // uses for parcing bool values in rpc result for example
@@ -143,6 +148,14 @@ func (m *MTProto) SetDCList(in map[int]string) {
 }
 
 func (m *MTProto) CreateConnection() error {
+	m.connMutex.Lock()
+	defer m.connMutex.Unlock()
+
+	return m.createConnection()
+}
+
+// createConnection is CreateConnection for a caller that holds connMutex
+func (m *MTProto) createConnection() error {
 	ctx, cancelfunc := context.WithCancel(context.Background())
 	m.stopRoutines = cancelfunc
 
@@ -227,6 +240,14 @@ func (m *MTProto) makeRequest(data tl.Object, expectedTypes ...reflect.Type) (an
 
 // Disconnect is closing current TCP connection and stopping all routines like pinging, reading etc.
 func (m *MTProto) Disconnect() error {
+	m.connMutex.Lock()
+	defer m.connMutex.Unlock()
+
+	return m.disconnect()
+}
+
+// disconnect is Disconnect for a caller that holds connMutex
+func (m *MTProto) disconnect() error {
 	// stop all routines
 	m.stopRoutines()
 
@@ -236,13 +257,36 @@ func (m *MTProto) Disconnect() error {
 }
 
 func (m *MTProto) Reconnect() error {
-	err := m.Disconnect()
+	m.connMutex.Lock()
+	defer m.connMutex.Unlock()
+
+	return m.reconnect()
+}
+
+// reconnect is Reconnect for a caller that holds connMutex
+func (m *MTProto) reconnect() error {
+	err := m.disconnect()
 	if err != nil {
 		return errors.Wrap(err, "disconnecting")
 	}
 
-	err = m.CreateConnection()
+	err = m.createConnection()
 	return errors.Wrap(err, "recreating connection")
+}
+
+// reconnectAfterHangup is what the reading routine of the connection made under ctx does when that connection
+// has ended. Somebody else may have replaced the connection meanwhile (the server answers PHONE_MIGRATE_X and
+// hangs up: the caller's goroutine reconnects to the other data centre at the same moment) or closed it for good
+// (Disconnect): ctx is cancelled then, and there is nothing left to do for this routine - reconnecting once more
+// would take away the connection the other one has just made, or overwrite it with one that is already cancelled.
+func (m *MTProto) reconnectAfterHangup(ctx context.Context) error {
+	m.connMutex.Lock()
+	defer m.connMutex.Unlock()
+
+	if ctx.Err() != nil {
+		return nil
+	}
+	return m.reconnect()
 }
 
 // startPinging pings the server that everything is fine, the client is online
@@ -296,7 +340,7 @@ func (m *MTProto) startReadingResponses(ctx context.Context) {
 					if !m.keyAfterHangup(ctx) {
 						return
 					}
-					err = m.Reconnect()
+					err = m.reconnectAfterHangup(ctx)
 					if err != nil {
 						m.warnError(errors.Wrap(err, "can't reconnect"))
 					}
